@@ -481,7 +481,7 @@ func Instantiate(v Value, model map[string]string) (string, error) {
 			if err != nil {
 				return "", err
 			}
-			sb.WriteString(NameOfCode(n))
+			sb.WriteString(NameOfCodeVar(p.Lit, n, model))
 		}
 	}
 	return sb.String(), nil
